@@ -385,6 +385,79 @@ def gen_abandon(rng):
     return prog
 
 
+def remap_lines(prog, m):
+    """the same program with line numbers renamed by m (all definitions and all jump targets)"""
+    f = lambda n: m.get(n, n)
+    out = []
+    for s in prog:
+        k = s[0]
+        if k in ('L', 'GS', 'G'):
+            out.append([k, f(s[1])])
+        elif k == 'R':
+            out.append([k, None if s[1] is None else f(s[1])])
+        elif k == 'IF':
+            out.append([k, s[1], None if s[2] is None else f(s[2])])
+        elif k == 'EL':
+            out.append([k, None if s[1] is None else f(s[1])])
+        elif k == 'ON':
+            out.append([k, s[1], s[2], [f(n) for n in s[3]]])
+        else:
+            out.append(s)
+    return out
+
+
+def boundary_lines(rng, prog):
+    """give the first line the number 0 and / or the last line the number 65529 (the boundary line numbers),
+    in the definitions and in every jump that names them; programs with ON ERROR / RESUME n / RESTORE n are left
+    alone (0 means something else there)"""
+    if any(s[0] in ('OEG', 'RES', 'RS') for s in prog):
+        return prog
+    ls = lines_of(prog)
+    if len(ls) < 2 or 0 in ls or 65529 in ls:
+        return prog
+    m = {}
+    r = rng.random()
+    if r < 0.7:
+        m[min(ls)] = 0
+    if r > 0.4:
+        m[max(ls)] = 65529
+    return remap_lines(prog, m)
+
+
+def gen_jump0(rng):
+    """line 0 and line 65529 as the target of every form of jump"""
+    lo, hi = rng.choice([(0, 65529), (0, 65529), (0, 500), (5, 65529)])
+    form = rng.randrange(8)
+    t = rng.choice([lo, lo, hi])
+    yes, no = rng.choice([1, -1, ['=', V(0), V(0)]]), rng.choice([0, ['<', V(0), V(0)]])
+    if form == 0:
+        j = [['IF', yes, t], ['P', 11]]
+    elif form == 1:
+        j = [['IF', no, 30], ['EL', t], ['P', 12]]
+    elif form == 2:
+        j = [['IF', no, t], ['P', 13]]
+    elif form == 3:
+        j = [['G', t]]
+    elif form == 4:
+        j = [['GS', t], ['P', 14]]
+    elif form == 5:
+        j = [['ON', rng.choice([1, 2]), rng.choice([0, 1]), [t, hi if t == lo else lo]], ['P', 15]]
+    elif form == 6:
+        j = [['IF', yes, None], ['IF', yes, t], ['P', 16], ['EL', 30]]
+    else:
+        j = [['IF', no, None], ['P', 17], ['EL', t]]
+    prog = [['L', lo], ['=', 2, ['+', V(2), 1]], ['P', V(2)], ['IF', ['>', V(2), 2], 40 if rng.random() < 0.7 else hi]]
+    if rng.random() < 0.4:
+        prog.append(['R', None])
+    prog += [['L', 10]] + j + [['L', 20], ['P', 20], ['L', 30], ['P', 30], ['L', 40], ['P', 40]]
+    if rng.random() < 0.5:
+        prog.append(['END'])
+    prog += [['L', hi], ['P', 99]]
+    if rng.random() < 0.4:
+        prog.append(['R', None])
+    return prog
+
+
 def gen_flat(rng, long_rate=0.02):
     for _ in range(60):
         r = rng.random()
@@ -400,8 +473,12 @@ def gen_flat(rng, long_rate=0.02):
             prog = gen_abandon(rng)
             if rng.random() < 0.2:
                 prog = mutate(rng, prog)
+        elif r < 0.92:
+            prog = gen_jump0(rng)
         else:
             prog = gen_soup(rng)
+        if rng.random() < 0.25:
+            prog = boundary_lines(rng, prog)
         if accept(rng, prog, None, long_rate):
             return {'k': 'flat', 'prog': prog, 'direct': None}
     return {'k': 'flat', 'prog': [['L', 10], ['N', []]], 'direct': None}
